@@ -4,6 +4,7 @@ package worlds
 
 import (
 	"fmt"
+	"os"
 	"sort"
 	"testing"
 	"time"
@@ -119,8 +120,78 @@ func (w *tssWorldState) invariants(s *tssSnap, where string) bool {
 	return true
 }
 
+// tssCapacityRun drives the store at the code's own capacity with more distinct clients than
+// it may keep (an address-spoofing flood) and asserts the statement's 2^20. Thorough tier,
+// first run of the batch only (about 1.2 million requests, a few seconds, ~300 MB).
+func tssCapacityRun(r *simcore.Run, prop string) any {
+	const want = 1 << 20
+	activate(r)
+	server.VerifResetTSS()
+	server.VerifTSSMuReset()
+	if server.VerifTSSCap() != want && prop == "C07" {
+		r.Fail("C07", "capacity/constant", "the store's capacity is %d, the statement says 2^20", server.VerifTSSCap())
+		return nil
+	}
+	clk := simclock.New(0, 0, 0)
+	simclock.Global.Set(func() *simclock.Clock { return clk })
+	w := &tssWorldState{r: r, prop: prop, capN: want, cur: map[string]*tssOpCtx{}, order: map[string]bool{}, lastRx: map[string]time.Time{}, serial: true, pendingSW: map[string]bool{}}
+	base := time.Date(2024, 5, 1, 12, 0, 0, 0, time.UTC)
+	one := func(i int, rxt time.Time) {
+		client := fmt.Sprintf("10.%d.%d.%d", i>>16, (i>>8)&255, i&255)
+		var req, resp ntp.Packet
+		req.SetVersion(4)
+		req.SetMode(ntp.ModeClient)
+		req.TransmitTime = ntp.Time64FromTime(rxt)
+		rd := rxt.Add(time.Microsecond)
+		clk.Fixed = &rd
+		rx, tx := rxt, time.Time{}
+		server.VerifHandleRequest(client, &req, &rx, &tx, &resp)
+		k := tx.Add(time.Microsecond)
+		server.VerifUpdateTXTimestamp(client, rx, &k)
+	}
+	for i := 0; i < want; i++ {
+		one(i, base.Add(time.Duration(i)*time.Microsecond))
+	}
+	_, n := server.VerifSnapshotTSSLen()
+	if n != want && prop == "C07" {
+		r.Fail("C07", "capacity/fill", "after %d distinct clients the store keeps %d", want, n)
+		return nil
+	}
+	// newer requests evict, older ones are served statelessly; the size never exceeds 2^20
+	for i := want; i < want+50000 && r.Violation() == nil; i++ {
+		rxt := base.Add(time.Duration(i) * time.Microsecond)
+		if i%5 == 0 {
+			rxt = base.Add(-time.Second) // older than everything on record
+		}
+		one(i, rxt)
+		if _, n := server.VerifSnapshotTSSLen(); n > want && prop == "C07" {
+			r.Fail("C07", "capacity/exceeded", "the store keeps %d clients (> 2^20)", n)
+			return nil
+		}
+	}
+	snap := tssTake()
+	if prop == "C07" {
+		if len(snap.heap) != want {
+			r.Fail("C07", "capacity/size", "after the flood the store keeps %d clients, want exactly 2^20", len(snap.heap))
+			return nil
+		}
+		w.invariants(snap, "after a flood of 2^20+50000 clients")
+		// the oldest 40000 newer-than-root newcomers replaced the 40000 oldest clients
+		if _, ok := snap.byKey["10.0.0.0"]; ok {
+			r.Fail("C07", "capacity/eviction-order", "the least recently active client survived a flood of newer requests")
+		}
+	}
+	r.Probe("capacity-run")
+	r.Count("requests", want+50000)
+	server.VerifResetTSS()
+	return map[string]any{"capacity_run": true, "clients": want + 50000, "kept": len(snap.heap)}
+}
+
 func tssWorld(prop string) simcore.World {
 	return func(t *testing.T, r *simcore.Run) any {
+		if os.Getenv("SIM_TIER") == "thorough" && r.Index == 0 && os.Getenv("SIM_REPLAY") == "" {
+			return tssCapacityRun(r, prop)
+		}
 		activate(r)
 		server.VerifResetTSS()
 		if server.VerifTSSMuHeld() {
